@@ -9,7 +9,7 @@ import common
 from facts import strip_targs
 
 TUS = ['src/threading/rwp/Resource.cpp', 'src/threading/ThreadPool.cpp', 'src/threading/Thread.cpp',
-       'witness/w_router.cpp', 'witness/w_thread.cpp', 'src/observer/routing/SubjectRouter.cpp',
+       'witness/w_router.cpp', 'witness/w_thread.cpp', 'witness/w_all.cpp', 'src/observer/routing/SubjectRouter.cpp',
        'src/observer/routing/RoutingLevelView.cpp', 'src/observer/routing/RoutingKey.cpp']
 
 SYNC_TYPES = ('std::mutex', 'std::condition_variable', 'std::recursive_mutex', 'tulz::rwp::Resource', 'std::shared_mutex')    # objects that are themselves synchronisation primitives (Resource: C01-C03, C12)
